@@ -144,6 +144,26 @@ def generated_cases(rng, per_cell, depth):
                     # the include exists but is not on the search path: everyone must refuse
                     cases.append({"origin": "broken:not-on-path", "dialect": d or "classic", "include": True,
                                   "source": src, "sp": ["empty"], "args": "()", "features": []})
+    # operators that exist only in the newer operator sets, applied to CONSTANTS so that compile-time folding runs them:
+    # the entry points must agree on the operator-set version they hand to the compile-time evaluator (seed C11-1:
+    # the library path, which never calls set_operators_version, fell back to the original operator set)
+    for d in clgen.DIALECTS:
+        inc = f"(include {d}) " if d else ""
+        for op, operands in (("keccak256", '"abc"'), ("keccak256", '0x00 "z"'), ("modpow", "5 3 7"), ("%", "17 5"),
+                             ("sha256", '"abc"')):
+            for shape in ("direct", "inline", "macro"):
+                if shape == "direct":
+                    body = f"(c ({op} {operands}) X1)"
+                    helper = ""
+                elif shape == "inline":
+                    helper = f"(defun-inline hh_1 (A1) (c ({op} {operands}) A1)) "
+                    body = "(hh_1 X1)"
+                else:
+                    helper = f"(defmacro mm_1 (A1) (qq (c ({op} {operands}) (unquote A1)))) "
+                    body = "(mm_1 X1)"
+                cases.append({"origin": "targeted:operator-version", "dialect": d or "classic", "include": False,
+                              "source": f"(mod (X1) {inc}{helper}{body})\n", "sp": [], "args": "(5)",
+                              "features": ["operator-version", op, shape]})
     # the C05 finding that makes entry points disagree by chance (see known_findings.json)
     for d in ("*standard-cl-23*", "*standard-cl-23.1*", "*standard-cl-24*"):
         cases.append({"origin": "witness:nondeterministic-compile", "dialect": d, "include": False,
